@@ -404,9 +404,13 @@ def check_C15(ctx):
         "collapse in deferred or fast mode, index swaps, mode switches, clear and property operations; physical removal in SLOW "
         "immediate mode (keeps the lengths only by the kernel's C02 closure property) and set_face / set_cell are outside the "
         "theorem and covered by lock step + the impl-side valence scan only",
-        "'every cell has four distinct vertices' is refuted (C15_four_distinct_vertices_refuted: the topology-checked add_cell "
-        "accepts two pillows, replayed on the library in corpus script tet-two-pillows); query contracts are proved under the "
-        "explicit hypothesis tet_wf (well-formed tetrahedron)",
+        "four distinct vertices: proved for every cell accepted by the topology-checked add_cell(halffaces) "
+        "(C15_checked_add_cell_four_distinct_vertices, after the fix 50db8ef; the former counterexample 'two pillows' is a corpus "
+        "replay and an Example); as an invariant of all additions it stays refuted for the UNCHECKED add_cell "
+        "(C15_four_distinct_vertices_unchecked_refuted); query contracts are proved under the explicit hypothesis tet_wf",
+        "property values across collapse_edge: known finding collapse-props-parity (C15_collapse_props_refuted); proved: sizes in "
+        "every mode, vertex/mesh arrays untouched in deferred mode; the rest is judged by the token oracle (which reports exactly the "
+        "once-per-tet swap outcome as KNOWN and every other deviation as a violation)",
         "collapse_edge: shape proved in deferred and in immediate fast mode, returned handle in deferred mode; the cell-set "
         "characterisation, the returned handle in the immediate modes and the slow immediate mode are carried by the "
         "correspondence and the brute-force oracle (C15_collapse_partial, C15_collapse_immediate_fast_partial)",
@@ -461,12 +465,11 @@ def check_C16(ctx):
     ctx.assumptions += [
         "hex_shape is proved invariant for the same class of histories as C15 (everything except physical removal in slow "
         "immediate mode and set_face / set_cell, which rest on the kernel's C02 invariants + lock step + valence scan)",
-        "checked add_cell: case analysis proved for every state and list; 'accepted => layout' is proved for the direct path as "
-        "'the stored list passes the library's ordering check', decided for all 720 orderings of the canonical cube, and carried "
-        "by lock step + the definition-based layout oracle for other meshes (C16_layout_direct_path_partial)",
-        "a topology-checked add_cell on six live quad halffaces that are not a hexahedron can leave InvalidHalfFaceHandle in the list "
-        "and store it / index with it (C16_checked_add_cell_invalid_handle_refuted; corpus scripts hex-invalid-handle-*): the model "
-        "is faithful (outcome UB), the generator does not aim at it outside the corpus",
+        "checked add_cell (after the fix 8e6fbe9): proved for every state and list - rejected with the mesh unchanged, or one cell "
+        "appended whose stored list passes the ordering check (first halfface's neighbours 2,4,3,5, second's 3,4,2,5) in the new "
+        "state; the clause 'halffaces 2k/2k+1 share no vertex' of the documented layout is decided for all 720 orderings of the "
+        "canonical cube and carried by lock step + the definition-based layout oracle on proper cubes otherwise; the former "
+        "counterexamples (invalid handle, non-cube closed surface) are corpus replays and Examples",
         "hex_vertices: first four proved in general, the full cube pattern decided on the canonical cube and checked by lock step + "
         "oracle otherwise; cells created from 8 vertices: layout decided on the canonical cube only",
     ]
